@@ -167,3 +167,364 @@ Proof.
   - injection E as _ E. apply IH; [intros Hin; apply Ht; now right|exact Hs|].
     now exists a, b.
 Qed.
+
+(* ---------------------------------------------------------------------- *)
+(* the scanner over a stream of items                                      *)
+(* ---------------------------------------------------------------------- *)
+
+(* what one loop iteration does with a chunk m that starts at a signature,
+   whatever follows it *)
+Inductive beh := BDeliver | BSkip | BRaise (e : err).
+
+Definition item := ((list byte * list byte) * beh)%type.
+
+Fixpoint expected (l : list item) : outcome :=
+  match l with
+  | [] => ([], None)
+  | ((m, _), BDeliver) :: l' => cons_piece m (expected l')
+  | (_, BSkip) :: l' => expected l'
+  | (_, BRaise e) :: _ => ([], Some e)
+  end.
+
+Section Proofs.
+  Variable process process_info : list byte -> result msginfo.
+  Variable filt : msginfo -> result bool.
+  Variable hook : msginfo -> result unit.
+
+  Notation step' := (step process process_info filt hook).
+  Notation scan' := (scan process process_info filt hook).
+  Notation generate' := (generate process process_info filt hook).
+  Notation full_ok' := (full_ok process hook).
+  Notation info_ok' := (info_ok process_info).
+  Notation filt_ok' := (filt_ok process process_info filt hook).
+  Notation full_fails' := (full_fails process).
+  Notation info_fails' := (info_fails process_info).
+
+  Variables io coe fl : bool.
+
+  Definition behaves (m sp : list byte) (b : beh) : Prop :=
+    match b with
+    | BDeliver => forall t, step' io coe fl (m ++ t) = Yield m (length m)
+    | BSkip => exists a, 0 < a /\ a <= length m /\
+                 (forall t, step' io coe fl (m ++ t) = Skip a) /\ nosig (skipn a m ++ sp)
+    | BRaise e => forall t, step' io coe fl (m ++ t) = Raise e
+    end.
+
+  Definition item_ok (x : item) : Prop :=
+    starts_sig (fst (fst x)) /\ nosig (snd (fst x)) /\ behaves (fst (fst x)) (snd (fst x)) (snd x).
+
+  Lemma scan_S fuel s idx :
+    scan' io coe fl (S fuel) s idx =
+    if idx <? length s then
+      match find sig s idx with
+      | None => ([], None)
+      | Some i =>
+        match step' io coe fl (skipn i s) with
+        | Yield p adv => cons_piece p (scan' io coe fl fuel s (i + adv))
+        | Skip adv => scan' io coe fl fuel s (i + adv)
+        | Raise e => ([], Some e)
+        end
+      end
+    else ([], None).
+  Proof. reflexivity. Qed.
+
+  Lemma scan_items : forall (l : list item) pre sep0 fuel,
+    Forall item_ok l -> nosig sep0 ->
+    length (sep0 ++ assemble (map fst l)) < fuel ->
+    scan' io coe fl fuel (pre ++ sep0 ++ assemble (map fst l)) (length pre) = expected l.
+  Proof.
+    induction l as [|[[m sp] b] l IH]; intros pre sep0 fuel Hall Hsep Hfuel.
+    - destruct fuel as [|f]; [lia|]. rewrite scan_S. cbn [map assemble expected].
+      rewrite app_nil_r. rewrite find_nosig_pre by assumption.
+      now destruct (length pre <? length (pre ++ sep0)).
+    - inversion Hall as [|x l' Hx Hl]; subst x l'. destruct Hx as (Hm & Hsp & Hb).
+      cbn [fst snd] in Hm, Hsp, Hb.
+      destruct fuel as [|f]; [lia|]. rewrite scan_S.
+      cbn [map assemble fst] in *.
+      pose proof (starts_sig_length _ Hm) as Hlen.
+      destruct (Nat.ltb_spec (length pre) (length (pre ++ sep0 ++ m ++ sp ++ assemble (map fst l))))
+        as [_|Hbad]; [|rewrite !app_length in Hbad; lia].
+      rewrite find_boundary_pre by assumption.
+      replace (pre ++ sep0 ++ m ++ sp ++ assemble (map fst l))
+        with ((pre ++ sep0) ++ m ++ sp ++ assemble (map fst l)) by now rewrite <- app_assoc.
+      rewrite <- app_length, skipn_length_app.
+      rewrite !app_length in Hfuel.
+      destruct b as [| |e]; cbn [behaves] in Hb.
+      + (* delivered: resume right after m *)
+        rewrite Hb. cbn [expected]. f_equal.
+        replace ((pre ++ sep0) ++ m ++ sp ++ assemble (map fst l))
+          with (((pre ++ sep0) ++ m) ++ sp ++ assemble (map fst l)) by now rewrite <- !app_assoc.
+        rewrite <- app_length. apply IH; [assumption|assumption|rewrite app_length; lia].
+      + (* skipped: resume a bytes into m; the rest of m joins the separator *)
+        destruct Hb as (a & Ha0 & Ham & Hstep & Htail).
+        rewrite Hstep. cbn [expected].
+        replace ((pre ++ sep0) ++ m ++ sp ++ assemble (map fst l))
+          with (((pre ++ sep0) ++ firstn a m) ++ (skipn a m ++ sp) ++ assemble (map fst l)).
+        2:{ rewrite <- !app_assoc. f_equal. f_equal. rewrite (app_assoc (firstn a m)).
+            now rewrite firstn_skipn. }
+        replace (length (pre ++ sep0) + a) with (length ((pre ++ sep0) ++ firstn a m))
+          by (rewrite (app_length _ (firstn a m)), firstn_length_le; lia).
+        apply IH; [assumption|assumption|].
+        rewrite !app_length, skipn_length. lia.
+      + now rewrite Hb.
+  Qed.
+
+  Theorem generate_items (l : list item) sep0 :
+    Forall item_ok l -> nosig sep0 ->
+    generate' io coe fl (sep0 ++ assemble (map fst l)) = expected l.
+  Proof.
+    intros Hall Hsep. unfold generate.
+    apply (scan_items l [] sep0); [assumption|assumption|lia].
+  Qed.
+End Proofs.
+
+(* ---------------------------------------------------------------------- *)
+(* expected outcomes of tagged streams                                     *)
+(* ---------------------------------------------------------------------- *)
+
+Definition tag (p : list byte -> bool) (x : list byte * list byte) : item :=
+  (x, if p (fst x) then BDeliver else BSkip).
+
+Lemma map_fst_tag p l : map fst (map (tag p) l) = l.
+Proof. induction l as [|x l IH]; cbn; [reflexivity|now rewrite IH]. Qed.
+
+Lemma expected_tag p l : expected (map (tag p) l) = (filter p (map fst l), None).
+Proof.
+  induction l as [|[m sp] l IH]; [reflexivity|].
+  cbn [map tag fst filter expected]. destruct (p m); cbn [expected]; rewrite IH; reflexivity.
+Qed.
+
+Lemma expected_tag_raise p l x e l2 :
+  expected (map (tag p) l ++ (x, BRaise e) :: l2) = (filter p (map fst l), Some e).
+Proof.
+  induction l as [|[m sp] l IH]; [destruct x; reflexivity|].
+  cbn [map tag fst filter expected app]. destruct (p m); cbn [expected]; rewrite IH; reflexivity.
+Qed.
+
+Lemma filter_true {A} (l : list A) : filter (fun _ => true) l = l.
+Proof. induction l as [|x l IH]; cbn; [reflexivity|now rewrite IH]. Qed.
+
+(* ---------------------------------------------------------------------- *)
+(* C11 / C12 theorems                                                      *)
+(* ---------------------------------------------------------------------- *)
+
+Section Theorems.
+  Variable process process_info : list byte -> result msginfo.
+  Variable filt : msginfo -> result bool.
+  Variable hook : msginfo -> result unit.
+
+  Notation step' := (step process process_info filt hook).
+  Notation scan' := (scan process process_info filt hook).
+  Notation generate' := (generate process process_info filt hook).
+  Notation full_ok' := (full_ok process hook).
+  Notation info_ok' := (info_ok process_info).
+  Notation filt_ok' := (filt_ok process process_info filt hook).
+  Notation full_fails' := (full_fails process).
+  Notation info_fails' := (info_fails process_info).
+  Notation behaves' := (behaves process process_info filt hook).
+  Notation item_ok' := (item_ok process process_info filt hook).
+
+  (* a valid message for the mode: the decode the scanner performs succeeds on
+     m ++ t for every t with the same result, and the length it advances by
+     (consumed bytes in full mode, declared total length in metadata-only mode)
+     is the length of m *)
+  Definition valid_msg (io : bool) (m : list byte) : Prop :=
+    if io then info_ok' m else full_ok' m.
+  Definition fails (io : bool) (m : list byte) (e : err) : Prop :=
+    if io then info_fails' m e else full_fails' m e.
+
+  Lemma behaves_deliver io coe m sp :
+    valid_msg io m -> behaves' io coe false m sp BDeliver.
+  Proof.
+    intros H t. unfold step, attempt, decode_step, piece_of.
+    destruct io; cbn in H; destruct H as (mi & Hp & Hrest).
+    - rewrite Hp. rewrite Hrest, firstn_length_app. reflexivity.
+    - destruct Hrest as [Hc Hh]. rewrite Hp, Hh, Hc, firstn_length_app. reflexivity.
+  Qed.
+
+  Lemma behaves_filter io coe m sp b :
+    starts_sig m -> nosig sp -> filt_ok' io m b ->
+    behaves' io coe true m sp (if b then BDeliver else BSkip).
+  Proof.
+    intros Hm Hsp (mi & Hp & Hf & Hrest).
+    pose proof (starts_sig_length _ Hm) as Hlen.
+    destruct io.
+    - (* metadata-only: the same decode decides and delivers *)
+      destruct b.
+      + intros t. unfold step, attempt, decode_step, piece_of.
+        rewrite Hp, Hf. cbn [andb negb]. rewrite Hrest, firstn_length_app. reflexivity.
+      + exists (length m). repeat split; [lia|lia| |].
+        * intros t. unfold step, attempt, decode_step, piece_of.
+          rewrite Hp, Hf. cbn [andb negb]. rewrite Hrest, firstn_length_app. reflexivity.
+        * rewrite skipn_all. exact Hsp.
+    - destruct b.
+      + destruct Hrest as (mi' & Hp' & Hc & Hh).
+        intros t. unfold step, attempt, decode_step, piece_of.
+        rewrite Hp, Hf. cbn [andb negb]. rewrite Hp', Hh, Hc, firstn_length_app. reflexivity.
+      + destruct Hrest as (Hh & Hc & HB).
+        assert (Hc0 : 0 < mi_consumed mi).
+        { destruct (mi_consumed mi) eqn:E; [|lia]. exfalso. apply HB.
+          destruct Hm as [bd ->]. cbn. now left. }
+        exists (mi_consumed mi). repeat split; [assumption|assumption| |].
+        * intros t. unfold step, attempt, decode_step, piece_of.
+          rewrite Hp, Hf. cbn [andb negb]. rewrite Hh.
+          rewrite firstn_le_app by assumption. now rewrite firstn_length_le.
+        * now apply nosig_app_noB.
+  Qed.
+
+  Lemma behaves_skip_damaged m sp e :
+    is_lib_err e = true -> full_fails' m e -> info_ok' m ->
+    starts_sig m -> nosig sp ->
+    behaves' false true false m sp BSkip.
+  Proof.
+    intros He Hf (mi & Hp & Hd) Hm Hsp.
+    pose proof (starts_sig_length _ Hm) as Hlen.
+    exists (length m). repeat split; [lia|lia| |].
+    - intros t. unfold step, attempt, decode_step, recover. rewrite Hf, He, Hp, Hd. reflexivity.
+    - rewrite skipn_all. exact Hsp.
+  Qed.
+
+  Lemma behaves_raise io coe m sp e :
+    fails io m e -> (coe = false \/ is_lib_err e = false) ->
+    behaves' io coe false m sp (BRaise e).
+  Proof.
+    intros Hf Hc t. unfold step, attempt, decode_step, recover.
+    destruct io; cbn in Hf; rewrite Hf;
+      (destruct Hc as [-> | ->]; [now destruct (is_lib_err e)|reflexivity]).
+  Qed.
+
+  Definition stream_ok (P : list byte -> Prop) (l : list (list byte * list byte)) : Prop :=
+    Forall (fun x => starts_sig (fst x) /\ nosig (snd x) /\ P (fst x)) l.
+
+  (* ---- C11 ---- *)
+
+  Theorem scan_exact io coe sep0 l :
+    nosig sep0 -> stream_ok (valid_msg io) l ->
+    generate' io coe false (sep0 ++ assemble l) = (map fst l, None).
+  Proof.
+    intros Hsep Hl.
+    rewrite <- (map_fst_tag (fun _ => true) l) at 1.
+    rewrite generate_items; [rewrite expected_tag; now rewrite filter_true| |assumption].
+    apply Forall_map. eapply Forall_impl; [|exact Hl].
+    intros [m sp] (Hm & Hsp & Hv). repeat split; [exact Hm|exact Hsp|].
+    cbn [tag fst snd]. now apply behaves_deliver.
+  Qed.
+
+  Theorem scan_filter io coe (p : list byte -> bool) sep0 l :
+    nosig sep0 -> stream_ok (fun m => filt_ok' io m (p m)) l ->
+    generate' io coe true (sep0 ++ assemble l) = (filter p (map fst l), None).
+  Proof.
+    intros Hsep Hl.
+    rewrite <- (map_fst_tag p l) at 1.
+    rewrite generate_items; [apply expected_tag| |assumption].
+    apply Forall_map. eapply Forall_impl; [|exact Hl].
+    intros [m sp] (Hm & Hsp & Hv). repeat split; [exact Hm|exact Hsp|].
+    cbn [tag fst snd] in *. now apply behaves_filter.
+  Qed.
+
+  Corollary scan_filter_is_filter_of_scan io coe (p : list byte -> bool) sep0 l :
+    nosig sep0 -> stream_ok (valid_msg io) l -> stream_ok (fun m => filt_ok' io m (p m)) l ->
+    fst (generate' io coe true (sep0 ++ assemble l)) =
+    filter p (fst (generate' io coe false (sep0 ++ assemble l))).
+  Proof. intros Hs H1 H2. rewrite (scan_filter io coe p), scan_exact by assumption. reflexivity. Qed.
+
+  (* the pieces written out one after the other are the messages one after the
+     other; without separators that is the input itself *)
+  Corollary concat_pieces io coe sep0 l :
+    nosig sep0 -> stream_ok (valid_msg io) l ->
+    concat (fst (generate' io coe false (sep0 ++ assemble l))) = concat (map fst l).
+  Proof. intros Hs Hl. now rewrite scan_exact. Qed.
+
+  Lemma assemble_no_sep (ms : list (list byte)) :
+    assemble (map (fun m => (m, [])) ms) = concat ms.
+  Proof. induction ms as [|m ms IH]; cbn; [reflexivity|now rewrite IH]. Qed.
+
+  Corollary concat_pieces_identity io coe (ms : list (list byte)) :
+    Forall (fun m => starts_sig m /\ valid_msg io m) ms ->
+    concat (fst (generate' io coe false (concat ms))) = concat ms.
+  Proof.
+    intros H. rewrite <- (assemble_no_sep ms).
+    change (assemble (map (fun m => (m, [])) ms)) with ([] ++ assemble (map (fun m => (m, [])) ms)).
+    rewrite scan_exact; [|apply nosig_nil|].
+    - cbn [fst app]. rewrite map_map. cbn [fst]. now rewrite map_id, assemble_no_sep.
+    - apply Forall_map. eapply Forall_impl; [|exact H].
+      intros m [Hm Hv]. repeat split; [exact Hm|apply nosig_nil|exact Hv].
+  Qed.
+
+  (* a start signature (and a stop signature) inside the body of a message is
+     never a scan position: one message comes out, with its exact bytes *)
+  Corollary signature_inside_body_not_scanned io coe sep0 b1 b2 b3 sep1 :
+    let m := sig ++ b1 ++ sig ++ b2 ++ [55; 55; 55; 55]%N ++ b3 in
+    nosig sep0 -> nosig sep1 -> valid_msg io m ->
+    generate' io coe false (sep0 ++ m ++ sep1) = ([m], None).
+  Proof.
+    intros m Hs0 Hs1 Hv.
+    replace (sep0 ++ m ++ sep1) with (sep0 ++ assemble [(m, sep1)])
+      by (cbn; now rewrite app_nil_r).
+    rewrite scan_exact; [reflexivity|assumption|].
+    constructor; [|constructor]. repeat split; [|assumption|assumption].
+    now exists (b1 ++ sig ++ b2 ++ [55; 55; 55; 55]%N ++ b3).
+  Qed.
+
+  (* ---- C12, stream level ---- *)
+
+  (* continue_on_error: a damaged message (library error from the full decode,
+     metadata-only decode still fine with the intact declared length) is skipped
+     exactly; every other message is delivered unchanged and in order.
+     [good] says which messages of the stream are undamaged. *)
+  Theorem scan_continue_skips (good : list byte -> bool) sep0 l :
+    nosig sep0 ->
+    stream_ok (fun m => if good m then full_ok' m
+                        else (exists e, is_lib_err e = true /\ full_fails' m e) /\ info_ok' m) l ->
+    generate' false true false (sep0 ++ assemble l) = (filter good (map fst l), None).
+  Proof.
+    intros Hsep Hl.
+    rewrite <- (map_fst_tag good l) at 1.
+    rewrite generate_items; [apply expected_tag| |assumption].
+    apply Forall_map. eapply Forall_impl; [|exact Hl].
+    intros [m sp] (Hm & Hsp & Hv). repeat split; [exact Hm|exact Hsp|].
+    cbn [tag fst snd] in *. destruct (good m).
+    - now apply (behaves_deliver false).
+    - destruct Hv as [(e & He & Hf) Hi]. now apply (behaves_skip_damaged m sp e).
+  Qed.
+
+  Lemma scan_raises io coe sep0 l m rest e :
+    nosig sep0 -> stream_ok (valid_msg io) l ->
+    starts_sig m -> fails io m e -> (coe = false \/ is_lib_err e = false) ->
+    generate' io coe false (sep0 ++ assemble l ++ m ++ rest) = (map fst l, Some e).
+  Proof.
+    intros Hsep Hl Hm Hf Hc.
+    pose (x := ((m ++ rest, @nil byte), BRaise e) : item).
+    replace (assemble l ++ m ++ rest)
+      with (assemble (map fst (map (tag (fun _ => true)) l ++ [x]))).
+    2:{ rewrite map_app, map_fst_tag. cbn [map fst x].
+        clear. induction l as [|[m' sp'] l IH]; cbn [assemble app].
+        - now rewrite !app_nil_r.
+        - rewrite <- !app_assoc. now rewrite IH. }
+    rewrite generate_items; [unfold x; rewrite expected_tag_raise; now rewrite filter_true| |assumption].
+    apply Forall_app; split.
+    - apply Forall_map. eapply Forall_impl; [|exact Hl].
+      intros [m' sp'] (Hm' & Hsp' & Hv). repeat split; [exact Hm'|exact Hsp'|].
+      cbn [tag fst snd]. now apply behaves_deliver.
+    - constructor; [|constructor]. repeat split; cbn [x fst snd].
+      + destruct Hm as [b ->]. exists (b ++ rest). now rewrite app_assoc.
+      + apply nosig_nil.
+      + intros t. rewrite <- app_assoc.
+        apply (behaves_raise io coe m [] e Hf Hc).
+  Qed.
+
+  (* without continue_on_error the messages before the damaged one are delivered
+     and then the error surfaces — whatever follows the damaged message *)
+  Theorem scan_stops_at_error io sep0 l m rest e :
+    nosig sep0 -> stream_ok (valid_msg io) l -> starts_sig m -> fails io m e ->
+    generate' io false false (sep0 ++ assemble l ++ m ++ rest) = (map fst l, Some e).
+  Proof. intros. apply scan_raises; auto. Qed.
+
+  (* an exception that is not a PyBufrKitError (e.g. AssertionError, D10) is not
+     caught, continue_on_error or not *)
+  Theorem non_library_error_escapes io coe sep0 l m rest e :
+    nosig sep0 -> stream_ok (valid_msg io) l -> starts_sig m -> fails io m e ->
+    is_lib_err e = false ->
+    generate' io coe false (sep0 ++ assemble l ++ m ++ rest) = (map fst l, Some e).
+  Proof. intros. apply scan_raises; auto. Qed.
+End Theorems.
